@@ -153,6 +153,20 @@ pub fn run(ctx: &Ctx, ev: &mut Ev) {
             if seq.len() <= 4 || h % 4 == 0 { let mut w = vec![0x61u16; 13]; w.extend_from_slice(seq); check_units(&mut drv, ev, &w, (h / 8 % 8) * 2, true); }
         }
     }
+    // (a4) huge buffers: lengths on both sides of 2^16 (thorough: 2^17, 2^20), valid mixed text, then one defect next to the
+    // 2^16 boundary or at the very end
+    if ctx.want("huge") && !tiny {
+        let sizes: Vec<usize> = if th { vec![65_535, 65_536, 65_537, 70_001, 131_073, (1 << 20) + 1] } else { vec![65_535, 65_536, 65_537, 70_001] };
+        for (k, &n) in sizes.iter().enumerate() { for (fi, filler) in ["a", "ab\u{E9}", "a\u{E9}\u{20AC}\u{1F600}", "\u{FF}a"].iter().enumerate() {
+            if !ev.mine() { continue; }
+            let mut v: Vec<u8> = Vec::with_capacity(n + 8); while v.len() + filler.len() <= n { v.extend_from_slice(filler.as_bytes()); } while v.len() < n { v.push(b'z'); }
+            check_bytes(&mut drv, ev, &v, (k + fi) % 16, true, false);
+            for p in [65_533usize, 65_535, 65_536, n - 1] { if p < n { let mut w = v.clone(); w[p] = 0xFF; check_bytes(&mut drv, ev, &w, (p + fi) % 16, true, false); } }
+            let mut u: Vec<u16> = (0..n).map(|i| if fi > 1 && i % 7 == 3 { 0xD83D } else if fi > 1 && i % 7 == 4 { 0xDCA9 } else { 0x61 + (i % 26) as u16 }).collect();
+            check_units(&mut drv, ev, &u, (k % 8) * 2, true);
+            for p in [65_535usize, 65_536, n - 1] { if p < n { let old = u[p]; u[p] = 0xDC00; check_units(&mut drv, ev, &u, (p % 8) * 2, true); u[p] = old; } }
+        } }
+    }
     // (b) two defects for selected lengths
     if ctx.want("two") && !tiny {
         let lens: Vec<usize> = (0..=40).chain(60..=70).chain(120..=135).collect();
